@@ -172,6 +172,8 @@ SimRun sim_session(const Json& faults, uint64_t max_yields, F f) {
   g.scratch = sim::scratch_dir();
   g.record_history = false;
   g.max_yields = max_yields;
+  if (g.max_allocs > 1000000) g.max_allocs = 1000000;   // reader sessions are small: a few thousand allocations
+  if (g.cpu_budget_s > 6.0) g.cpu_budget_s = 6.0;       // and take microseconds to milliseconds of CPU
   for (auto& fj : faults.arr()) g.faults.push_back(sim::FaultOp::from_json(fj));
   g.exit_jmp = &jb;
   g.begin();
